@@ -328,6 +328,23 @@ def generators(plan, run, violate, stats):
     rs = random_samples(lo, hi, npts)
     if rs.shape != (dim, npts) or any(not in_box(p, (lo, hi)) for p in rs.T.tolist()):
         violate('sample_outside_range', 'random_samples(%r,%r,%d) shape %r' % (lo, hi, npts, rs.shape), mode='generator')
+    # ... and with a user-supplied sampling distribution (broad compared with the box: draws, and re-draws, fall outside)
+    from mystic.math import Distribution
+    lo2 = [gen.r2(rng, -5, 0) for _ in range(dim)]; hi2 = [l + rng.choice([0.5, 1.0, 3.0]) for l in lo2]
+    loc = rng.choice([0.0, 1.0, -2.0]); scale = rng.choice([0.5, 2.0, 5.0])
+    try:
+        d = Distribution('numpy.random.normal', loc, scale)
+        dd = d if rng.random() < 0.5 else [Distribution('numpy.random.normal', loc, scale) for _ in range(dim)]
+        pts = samplepts(list(lo2), list(hi2), npts, dd)
+        stats['generator_checks'] += 1
+        if len(pts) != npts or any(not in_box(p, (lo2, hi2)) for p in pts):
+            violate('sample_outside_range', 'samplepts(%r,%r,%d, dist=normal(%r,%r)) = %r' % (lo2, hi2, npts, loc, scale, pts), mode='generator', dist=True)
+        rs = random_samples(list(lo2), list(hi2), npts, dd, clip=rng.random() < 0.3)
+        if any(not in_box(p, (lo2, hi2)) for p in numpy.asarray(rs).T.tolist()):
+            violate('sample_outside_range', 'random_samples(%r,%r,%d, dist=normal(%r,%r)) left the ranges: %r'
+                    % (lo2, hi2, npts, loc, scale, numpy.asarray(rs).T.tolist()[:4]), mode='generator', dist=True)
+    except RuntimeError:
+        stats['generator_gave_up'] = stats.get('generator_gave_up', 0) + 1      # 'bounds could not be applied in n iterations': loud, allowed
     N = rng.choice([1, 2, 4, 6, 8, 12]); nd = rng.randint(1, 3)
     bins = randomly_bin(N, nd, ones=True, exact=True)
     if len(bins) != nd or int(numpy.prod(bins)) != N:
